@@ -36,7 +36,8 @@ def gen_spec(r: apigen.Rng, idx: int, clean: bool):
     """'determinism' profile (DESIGN §7.10): several resources (equal short type names unless `clean`),
     several files/imports/module-name collisions, several retryable codes, equal method names across
     services, nested/recursive field types, LRO, paging, REST query params, snippets on/off.
-    `clean` = no two resources of the API share a case-insensitive short type name (the F4 hypothesis)."""
+    `clean` = no two resources of the API share a case-insensitive short type name (the input class of the
+    repaired §9-F4; the other specs keep exercising it as a regression)."""
     nfiles = r.randint(1, 3)
     nmsgs = r.randint(4, 9)
     names = r.sample(MSG_NAMES, nmsgs)
@@ -309,19 +310,11 @@ def file_kind(name):
     return base
 
 
-HELPER_FILES = {"services/client.py", "services/async_client.py", "tests/test_<service>.py"}
-
-
 def classify(spec_types_by_service, summary):
-    """signature key of a determinism failure"""
+    """signature key of a determinism failure (no key is special: the one known finding, F4, is repaired)"""
     if summary["only_a"] or summary["only_b"] or summary["file_order"]:
         return "file-set-or-order"
     kinds = sorted({file_kind(f["name"]) for f in summary["files"]})
-    has_equal = any(equal_key_groups(ts) for ts in spec_types_by_service.values())
-    # F4's footprint: the helper definitions of client.py are merely re-ordered (async_client aliases them, the
-    # test module follows the same loop and numbers its sample values by position)
-    if has_equal and set(kinds) <= HELPER_FILES and all(f["reorder_only"] for f in summary["files"] if not f["name"].startswith("tests/")):
-        return "equal-sort-key:resource_type"
     return "nondeterministic:" + ",".join(kinds[:2]) + (",+%d" % (len(kinds) - 2) if len(kinds) > 2 else "")
 
 
@@ -360,8 +353,8 @@ def ask(ctx, ops):
 # ----------------------------------------------------------------------------------------- inventory (T1-style tie)
 THEOREMS_FOR_CLASS = {
     "S1": ["sort_lines_perm_invariant", "sorted_perm_invariant"],
-    "S2": ["sort_by_key_perm_invariant", "retry_order_free", "query_params_order_free"],
-    "S2!": ["sort_by_key_needs_injective", "resource_helpers_counterexample", "resource_helpers_order_free_partial"],
+    "S2": ["sort_by_key_perm_invariant", "sort_by_key_needs_injective", "retry_order_free", "query_params_order_free",
+           "resource_helpers_order_free", "resource_helpers_f4_regression"],
     "S3": ["s3_mem_perm_invariant", "s3_length_perm_invariant", "disambiguate_perm_invariant", "module_collides_perm_invariant"],
     "S4": ["s4_chain", "import_block_order_free", "colliding_module_perm_invariant"],
     "S5": ["pipeline_order_free"],
@@ -383,7 +376,7 @@ def check_inventory(ctx):
     detail = "scan == pinned inventory (%d sites)" % len(scanned) if ok_sites else \
         f"{len(new)} new/changed site(s), {len(gone)} pinned site(s) gone; first: {(new + gone)[0]}"
     ok_attrs = attrs == pinned.get("set_valued_names")
-    bad_cls = sorted(c for c in classes if c not in ("S1", "S2", "S2!", "S3", "S4", "S5", "N", "I"))
+    bad_cls = sorted(c for c in classes if c not in ("S1", "S2", "S3", "S4", "S5", "N", "I"))
     obligations = [("inventory:sites", ok_sites, detail),
                    ("inventory:set-valued-names", ok_attrs, "set-valued attributes: " + json.dumps(attrs)[:200]),
                    ("inventory:classes", not bad_cls, "unknown classes " + str(bad_cls) if bad_cls else "every site is classified S1..S5/N/I")]
@@ -502,12 +495,29 @@ def t2_functions(ctx, r):
         ctx.fail("retry-sort-key-collision", f"exception class names collide up to case: {sorted(real_names)}", {"via": "function-level"})
 
 
+_LOOP = {}
+
+
+def helper_loop_expr():
+    """the iterable of the resource-helper loop, read from the repo's CURRENT client.py.j2 (so that T2 runs the
+    expression the templates really use, through the generator's own Jinja environment)"""
+    if "expr" not in _LOOP:
+        root = os.environ.get("VERIF_REPO", "/repo")
+        path = os.path.join(root, "gapic", "templates", "%namespace", "%name_%version", "%sub", "services", "%service", "client.py.j2")
+        with open(path, encoding="utf-8") as fh:
+            m = re.search(r"\{%-?\s*for message in (service\.resource_messages[^%]*?)\s*-?%\}", fh.read())
+        if not m:
+            raise RuntimeError("client.py.j2 no longer has a `for message in service.resource_messages…` loop")
+        _LOOP["expr"] = m.group(1)
+    return _LOOP["expr"]
+
+
 def t2_schema(ctx, r, req, spec):
     """T2 on the real schema objects of one API: the set-valued attributes feed both the real consumer
     (template expression / method) and the model; permutations are applied on both sides."""
     env = _env()
     api, _ = genrun.build_api(req)
-    tpl_res = env.from_string('{% for m in ms|sort(attribute="resource_type") %}{{ m.resource_path }}\x00{% endfor %}')
+    tpl_res = env.from_string('{% for m in ' + helper_loop_expr().replace("service.resource_messages", "ms") + ' %}{{ m.resource_path }}\x00{% endfor %}')
     tpl_q = env.from_string('{% for p in qs|sort %}{{ p }},{% endfor %}')
     tpl_imp = env.from_string('{% filter sort_lines %}\n{% for l in ls %}{{ l }}\n{% endfor %}{% endfilter %}')
     per_service = {}
@@ -772,8 +782,9 @@ CLAIM = dict(
          "characterisation and the counterexample when the key is not injective (S2), membership/size/set-algebra consumers incl. "
          "Proto.disambiguate and module-collision tests (S3), tuple(set) chains ending in such consumers (S4), and the pipeline "
          "theorem (order-free sites => schedule-independent response); instance theorems for retryable exceptions (17 class names), "
-         "query params, import blocks, and for the resource path helpers (order-free only if short resource types are distinct up to "
-         "case; counterexample = finding F4; proposed two-stage sort proved order-free and conservative). Tie: a static inventory "
+         "query params, import blocks, and for the resource path helpers as repaired for F4 (two-stage sort: order-free whenever full "
+         "resource types are distinct, regression theorem for the F4 inputs, conservative w.r.t. the former single-stage order, and the "
+         "remaining hypothesis shown necessary). Tie: a static inventory "
          "scan of all set/sort/impurity sites of gapic/**/*.py and the templates must equal a pinned, classified inventory; T2 of the "
          "real sort_lines, the generator's Jinja |sort filters, query_params, disambiguate, names on real schema objects vs the model "
          "under permutations; T3 of the order of emitted helper/retry definitions vs the model's outcome sets. Oracle: the real CLI "
@@ -781,5 +792,5 @@ CLAIM = dict(
     technique="Lean 4 theorems over List.Perm / stable merge sort (core lemmas) + pinned static inventory + differential T2/T3 + multi-process byte-comparison oracle",
     design="7.10",
     note="Site classification in c10_inventory.json is by hand (each note says why); Jinja and CPython's sorted() are modelled as the unique stable sort; "
-         "imp.Import's __eq__/__hash__ mismatch is not modelled (oracle only). Known finding: equal short resource type names (F4).",
+         "imp.Import's __eq__/__hash__ mismatch is not modelled (oracle only). F4 (equal short resource type names) is repaired (e81ac44); its inputs stay in corpus/C10 as regressions.",
 )
